@@ -348,7 +348,7 @@ GROUPS["bvf_hash"] = G("bvf_hash", WORD_PRELUDE + ["conv_std.rs"] + VALUE_PRELUD
 GROUPS["bvd_hash"] = G("bvd_hash", BVD_VAL_PRELUDE + ["hash.rs", "bvd_hash.rs"], BVD_BASE + stub(BVD_CORE) + stub(["bvd.significant_bits"]) + verify(["bvd.hash"]))
 GROUPS["bvd_hash"]["features"] = "#![feature(allocator_api)]"
 BV_VAL_PRELUDE = WORD_PRELUDE + ["conv_std.rs"] + VALUE_PRELUDE + ["bvf.rs", "bvf_val.rs", "bvd.rs", "bvd_val.rs", "iarray.rs", ("chunk.rs", {"J": "u64", "Y": ""}), "bv.rs", "bv_val.rs"]
-GROUPS["bv_hash"] = G("bv_hash", BV_VAL_PRELUDE + ["hash.rs", "bvf_hash.rs", "bvd_hash.rs", "bv_hash.rs"],
+GROUPS["bv_hash"] = G("bv_hash", BV_VAL_PRELUDE + ["hash.rs", "bvf_hash.rs", "bvd_hash.rs", "bv_words.rs", "bv_hash.rs"],
     BV_BASE + [("stub", "bv.significant_bits"), ("stub", "bv.get_int", {"J": "u64", "Y": ""})] + verify(["bv.hash"]))
 GROUPS["bv_hash"]["features"] = "#![feature(allocator_api)]"
 GROUPS["bv_iarray"] = dict(name="bv_iarray", features="#![feature(allocator_api)]",
@@ -457,6 +457,11 @@ def div_bvd_bvf_items(ctx):
            ("stub", "bvd.partial_cmp_bvd"), ("stub", "bvd.addsub_bvd", ARITH_D["sub"])]
     return it + verify(["bvd.div_rem_bvf"])
 GROUPS["bvd_div_bvf"] = dict(name="bvd_div_bvf", features="#![feature(allocator_api)]", prelude=div_bvd_bvf_prelude, items=div_bvd_bvf_items)
+GROUPS["bvf_bytes"] = G("bvf_bytes", BVF_PRELUDE + ["bytes.rs"], BVF_BASE + [("stub", "cast.to", {"A": "{I}", "B": "u8"})] + stub(BVF_CORE) + verify(["bvf.to_vec"]))
+GROUPS["bvd_bytes"] = G("bvd_bytes", BVD_PRELUDE + ["bytes.rs"], BVD_BASE + stub(BVD_CORE) + verify(["bvd.to_vec"]))
+GROUPS["bvd_bytes"]["features"] = "#![feature(allocator_api)]"
+GROUPS["bv_bytes"] = G("bv_bytes", BV_PRELUDE + ["bytes.rs", "bv_words.rs"], BV_BASE + stub(["bvf.to_vec", "bvd.to_vec"]) + verify(["bv.to_vec"]))
+GROUPS["bv_bytes"]["features"] = "#![feature(allocator_api)]"
 GROUPS["div_theory"] = dict(name="div_theory", prelude=lambda ctx: WORD_PRELUDE + VALUE_PRELUDE + ["value_div.rs"], items=lambda ctx: [("decl", "decl.Bit")])
 GROUPS["mul_theory"] = dict(name="mul_theory", prelude=lambda ctx: WORD_PRELUDE + VALUE_PRELUDE + ["value_mul.rs"], items=lambda ctx: [("decl", "decl.Bit")])
 
@@ -671,6 +676,9 @@ def int_conv_jobs(ws):
         out += [("int_from_bvd", {"I": "u64", "J": j}), ("bvd_from_int", {"I": "u64", "J": j, "YJ": yj64(j)}), ("bv_int", {"I": "u64", "J": j, "YJ": yj64(j)})]
     return out + jobs("bvf_defaults", ws) + [("bvd_defaults", U64), ("bv_defaults", U64)]
 PROPS["C11"] = {"quick": int_conv_jobs(WQ), "thorough": int_conv_jobs(W4)}
+def bytes_jobs(ws):
+    return [("bvf_bytes", {"I": i}) for i in ws] + [("bvd_bytes", U64), ("bv_bytes", U64)]
+PROPS["C13"] = {"quick": bytes_jobs(WQ), "thorough": bytes_jobs(W4)}
 BVD_ARITH_JOBS = [("bvd_arith", dict(U64, **ARITH_D[o])) for o in ("add", "sub")]
 PROPS["C01"]["quick"] += BVD_ARITH_JOBS
 PROPS["C01"]["thorough"] += BVD_ARITH_JOBS
@@ -786,7 +794,8 @@ MANIFEST_TEXT["C12"] = dict(
           "storage beyond len zero (wf), and for Bvd exactly ceil(len/64) words`, on top of the verified chunk readers IArray::get_int/int_len of Bvf and Bvd (every word-size pair)." + DYN_NOTE),
     note=("Not yet under contract (second engine only): the by-value forms (forwarders), conversions from/to Bv, From<&[I]>, new/into_inner round trip (new/into_inner themselves are verified, see C07). "
           "The slice-level get_int (unsafe align_to / word-combining loop in utils.rs) is a trusted contract (T2). " + TRUST_NOTE))
-dyn_only("C13", "to_vec/write/from_bytes/read for both endiannesses incl. surplus bits, short input, capacity errors and round trips.", "to_vec/read units not yet written; from_bytes loops are outside Verus (iterator adapters); D3 was found and fixed.")
+dyn_only("C13", "to_vec/write/from_bytes/read for both endiannesses incl. surplus bits, short input, capacity errors and round trips.", "from_bytes (enumerate/rev iterator adapters) and read/write (io traits, `?`) are outside what Verus takes; D3 was found and fixed. ONE direction IS verified on every run of this check: to_vec of Bvf, Bvd and Bv "
+         "(exactly ceil(len/8) bytes; Little: bit t of byte j is bit 8j+t of the vector, surplus bits of the top byte zero; Big: the same bytes reversed) - units bvf.to_vec, bvd.to_vec, bv.to_vec; a definite failure there is reported as a violation of this property.")
 dyn_only("C14", "Display/Binary/Octal/LowerHex/UpperHex under 15 format specifications against Rust's formatting of the u128 value.", "Formatter units (pad_integral model) not yet written.")
 dyn_only("C15", "from_binary/from_hex over random strings from an alphabet with valid digits, invalid ASCII and a non-ASCII character (accept set, length, first bad index, capacity error) and parse(format(v)) == v; Bv on both sides of the inline limit.", "Parsing loops are driven by str::chars().enumerate(): outside Verus's front end (DESIGN 2.2); bounded/random is the planned level.")
 MANIFEST_TEXT["C17"] = dict(
